@@ -115,6 +115,8 @@ class Index:
         # private names that were only renamed are mapped back to the names the rules know (see sa/canon.py)
         from sa import canon
         self.renames = canon.recover(self.files)
+        self.reference_methods = canon.reference_methods()
+        self._attr_types = None
         for rel, (src, tree) in self.files.items():
             for node in tree.body:
                 self._index_top(rel, node)
@@ -141,6 +143,28 @@ class Index:
             for sub in ast.iter_child_nodes(node):
                 if isinstance(sub, (ast.ClassDef, ast.FunctionDef)):
                     self._index_top(rel, sub)
+
+    def attr_type(self, cls, attr):
+        """the package class of `<cls instance>.<attr>` when every store `self.<attr> = T(…)` in the class family constructs the same
+        class T of the package; else None"""
+        if self._attr_types is None:
+            self._attr_types = {}
+            for cname, cis in self.classes.items():
+                for ci in cis:
+                    for m in ci.methods.values():
+                        for n in ast.walk(m.node):
+                            if isinstance(n, ast.Assign) and len(n.targets) == 1 and isinstance(n.targets[0], ast.Attribute) and isinstance(n.targets[0].value, ast.Name) \
+                                    and n.targets[0].value.id == "self":
+                                v = n.value
+                                t = v.func.id if isinstance(v, ast.Call) and isinstance(v.func, ast.Name) and v.func.id in self.classes else None
+                                if t is None and isinstance(v, ast.Constant) and v.value is None:
+                                    continue  # a None placeholder before the real object
+                                self._attr_types.setdefault((cname, n.targets[0].attr), set()).add(t)
+        for c in self.mro(cls):
+            ts = self._attr_types.get((c.name, attr))
+            if ts:
+                return next(iter(ts)) if len(ts) == 1 and None not in ts else None
+        return None
 
     def _module_rel(self, rel, module, level):
         """relpath of the package module `module` imported from file rel (level = leading dots), or None"""
